@@ -122,6 +122,24 @@ func runC09(seed uint64, n int, outDir string, replay string) {
 				ans(fmt.Sprint(core.CalcGasLimit(parent, params.LocalGasCeil)))
 				o.Op("limit %d %d %d %d %d %d", params.TimeToStartTx, params.MinGasLimit(pn), params.BlocksPerMonth, params.StateCeil, pn, parent.StateLimit())
 				ans(fmt.Sprint(misc.CalcStateLimit(parent, params.StateCeil)))
+				// minimum base fee and the conversion-flow average: protocol values derived from the parent
+				if pt := hc.GetHeaderByHash(parent.PrimeTerminusHash()); pt != nil && !hc.IsGenesisHash(parent.Hash()) {
+					rate := pt.ExchangeRate()
+					if hc.IsGenesisHash(parent.ParentHash(common.ZONE_CTX)) {
+						rate = params.ExchangeRate
+					}
+					qr, qi := misc.CalculateQuaiReward(parent.WorkObjectHeader(), parent.Difficulty(), rate), misc.CalculateQiReward(parent.WorkObjectHeader(), parent.Difficulty())
+					o.Op("basefee %s %s %s %d", qr, qi, params.MinBaseFeeInQits, params.TxGas)
+					ans(hc.CalcBaseFee(parent).String())
+					if bf := hc.CalcBaseFee(parent); bf != nil && blk.BaseFee().Cmp(bf) != 0 {
+						o.Violate("c09-basefee-not-derived-from-parent", fmt.Sprintf("block %d carries base fee %s, the value derived from its parent is %s", num, blk.BaseFee(), bf))
+					}
+				}
+				{
+					cur := new(big.Int).Mul(big.NewInt(int64(rc.Intn(100000))), new(big.Int).Exp(big.NewInt(10), big.NewInt(int64(12+rc.Intn(10))), nil))
+					o.Op("flow %s %s %d %s", parent.ConversionFlowAmount(), cur, params.MinerDifficultyWindow, params.MinConversionFlowAmount)
+					ans(hc.ComputeConversionFlowAmount(parent, cur).String())
+				}
 				intrinsic, order, err := hc.CalcOrder(blk)
 				if err != nil {
 					o.Violate("c09-calcorder-error", fmt.Sprintf("block %d: %v", num, err))
